@@ -134,17 +134,48 @@ def rule_rt6(A: Analysis, rep):
     if len(loops) == 1:
         l = loops[0]
         cont = None
+        table_ok = None
         if isinstance(l.test, ast.Constant) and l.test.value is True:
-            brk = [b for b in walk_local(l) if isinstance(b, ast.Break)]
-            if len(brk) == 1 and isinstance(brk[0]._parent, ast.If):
-                cont = A.dnf(brk[0]._parent.test, False, cnv, inline=False, xstop=[])
+            # `while True`: classify every way an iteration ends (break = leave, continue / end of body = repeat) by its
+            # path condition, and compare the table with "repeat iff the directory exists"
+            gl = A.cfg(cnv, "plain")
+            hd = [n for n in gl.nodes if n.kind == "test" and getattr(n, "info", None) is l]
+            inside = {id(x) for x in ast.walk(l)}
+            if hd:
+                be_ = [m for (m, lb) in hd[0].succ if branch_of(lb) == "T" or lb == "T"]
+                pairs_ = []
+                for n in gl.nodes:
+                    if n.ast is None or id(n.ast) not in inside:
+                        continue
+                    if n.kind == "stmt" and isinstance(n.ast, ast.Break):
+                        pairs_ += [(c, "leave") for c in A.path_guards(gl, be_[0], n, cnv, xstop=[])]
+                    elif n.kind == "stmt" and any(m is hd[0] and is_back(lb) for m, lb in n.succ):
+                        pairs_ += [(c, "repeat") for c in A.path_guards(gl, be_[0], n, cnv, xstop=[])]
+                    elif n.kind == "test" and any(m is hd[0] and is_back(lb) for m, lb in n.succ):
+                        for (m, lb) in n.succ:
+                            if m is hd[0] and is_back(lb):
+                                for c in A.path_guards(gl, be_[0], n, cnv, xstop=[]):
+                                    for d in A.dnf(n.ast, "T" in lb, cnv, xstop=[]):
+                                        pairs_.append((c | d, "repeat"))
+                atoms = {a for c, _o in pairs_ for a, _p in c}
+                pvs = {a[5:-1] for a in atoms if a.startswith("none(")}
+                if len(pvs) == 1 and be_:
+                    pv = pvs.pop()
+                    from .selection import truth_table
+                    mism, _n = truth_table(pairs_, {"none(%s)" % pv: "none", "t(%s.exists())" % pv: "exists"},
+                                           lambda a: "repeat" if (not a["none"] and a["exists"]) else "leave",
+                                           consistent=lambda a: not (a["none"] and a["exists"]))
+                    table_ok = mism is None and pv.replace(" ", "") == "self.get_output_path(%s)" % cnv.params[1]
+                    det = "the retry loop: %s" % (mism or "repeats exactly while the directory exists")
         elif isinstance(l.test, ast.Name):
             flag = l.test.id
             ins = [d for d in A.defs(cnv, flag) if isinstance(d, ast.Assign) and id(d) in {id(x) for x in ast.walk(l)}]
             outs = [d for d in A.defs(cnv, flag) if isinstance(d, ast.Assign) and id(d) not in {id(x) for x in ast.walk(l)}]
             if len(ins) == 1 and len(outs) == 1 and norm(outs[0].value) == "True" and not any(isinstance(b, (ast.Break, ast.Continue)) for b in walk_local(l)):
                 cont = A.dnf(ins[0].value, True, cnv, inline=False, xstop=[flag])
-        if cont is not None:
+        if table_ok is not None:
+            ok = table_ok
+        elif cont is not None:
             # the loop repeats exactly while the new version's directory exists
             atoms = {a for c in cont for a, _p in c}
             paths = {a[5:-1] for a in atoms if a.startswith("none(")}
